@@ -7,7 +7,7 @@ import core
 import progcheck
 import progdiff
 
-HEAVY = ("big_tables", "long_jumps")
+HEAVY = ("big_tables", "long_jumps", "big_bytes_tuple")
 
 
 def ref_cats():
